@@ -25,6 +25,9 @@ type (
 	Name struct {
 		V   string
 		Esc bool // force back-quotes
+		// Bare prints the words and, or, in without back-quotes (a field
+		// name where an operand is expected)
+		Bare bool
 	}
 	Wild struct{}
 	Desc struct{}
@@ -568,7 +571,9 @@ func (p *printer) node(n Node) {
 	case *Var:
 		p.tok("$" + n.Name)
 	case *Name:
-		if n.Esc || !PlainName(n.V) {
+		if n.Bare && isWordTok(n.V) {
+			p.tok(n.V)
+		} else if n.Esc || !PlainName(n.V) {
 			p.tok("`" + n.V + "`")
 		} else {
 			p.tok(n.V)
